@@ -371,9 +371,63 @@ func vBytesMuts(x []byte) []vBytesMut {
 	return out
 }
 
-// vBBMuts: list operators plus element operators on the first and last element.
+// vResplitMuts: operators that keep the CONCATENATION of a list of byte strings but change its
+// partition. For every adjacent pair (i,i+1) (all pairs of lists of <= 6 elements, else the first,
+// middle and last pair), count unchanged: move one byte, move all but one byte, move the whole
+// element across the boundary, in both directions; count-changing, at the first and last pair:
+// merge the two elements into one; and at the first and last element: split it in two.
+func vResplitMuts(x [][]byte) []vListMut[[]byte] {
+	var out []vListMut[[]byte]
+	n := len(x)
+	if n == 0 {
+		return nil
+	}
+	pairs := []int{}
+	if n-1 <= 5 {
+		for i := 0; i+1 < n; i++ {
+			pairs = append(pairs, i)
+		}
+	} else {
+		pairs = []int{0, (n - 1) / 2, n - 2}
+	}
+	add := func(name string, i int, v [][]byte) { out = append(out, vListMut[[]byte]{"resplit-" + name, i, v}) }
+	for _, i := range pairs {
+		a, b := x[i], x[i+1]
+		cut := func(name string, k int) { // the boundary moves to offset k of a||b
+			ab := append(vCloneB(a), b...)
+			if k < 0 || k > len(ab) || k == len(a) {
+				return
+			}
+			v := vCloneBB(x)
+			v[i], v[i+1] = append([]byte{}, ab[:k]...), append([]byte{}, ab[k:]...)
+			add(name, i, v)
+		}
+		cut("move-1-byte-right", len(a)-1)
+		cut("move-1-byte-left", len(a)+1)
+		cut("move-all-but-1-right", 1)
+		cut("move-all-but-1-left", len(a)+len(b)-1)
+		cut("move-whole-right", 0)
+		cut("move-whole-left", len(a)+len(b))
+	}
+	for _, i := range vEnds(n) {
+		if i+1 < n {
+			v := append(vCloneBB(x[:i]), append(vCloneB(x[i]), x[i+1]...))
+			v = append(v, vCloneBB(x[i+2:])...)
+			add("merge-pair", i, v)
+		}
+		if len(x[i]) >= 2 {
+			h := len(x[i]) / 2
+			v := append(vCloneBB(x[:i]), vCloneB(x[i][:h]), vCloneB(x[i][h:]))
+			v = append(v, vCloneBB(x[i+1:])...)
+			add("split-elem", i, v)
+		}
+	}
+	return out
+}
+
+// vBBMuts: list operators, element operators on the first and last element, re-split operators.
 func vBBMuts(x, donor [][]byte) []vListMut[[]byte] {
-	out := vListMuts(x, donor, vCloneB)
+	out := append(vListMuts(x, donor, vCloneB), vResplitMuts(x)...)
 	if len(x) > 0 {
 		for _, i := range vEnds(len(x)) {
 			for _, m := range vBytesMuts(x[i]) {
